@@ -82,7 +82,10 @@ CHECKS["C06"] = dict(
          "and closed again, pushed through lex, parse, compile + error rendering, format (default and narrow options) and run; "
          "CoreCalls.tla enumerates, for every callable entry of the prelude dumped from the runtime under test, every argument tuple "
          "up to the arity bound over a pool of 37 boundary values, a name used twice denoting the same object (receiver passed as "
-         "its own argument, callbacks that mutate the receiver); result or error is displayed. Every other check also treats a "
+         "its own argument, callbacks that mutate the receiver); result or error is displayed. VmOps.tla covers what the VM does "
+         "itself with a value (unpacking in assignments, arguments and match arms with ellipses, for loops, indexing, operators, "
+         "interpolation, calls, type hints, throw/catch: 170 templates) over the pool plus 22 hostile objects whose meta functions "
+         "lie about the size, fail, return the wrong type or change the container being taken apart. Every other check also treats a "
          "panic of the code under test as a violation of its replay.",
     design_ref="DESIGN.md §5 C06",
     note="Allocation failures and capacity overflows are outside the property (calls run under an address-space limit); io.* file "
@@ -135,6 +138,8 @@ CHECKS["C11"] = dict(
          "is idempotent on text; every explored (text, options) pair is recorded as the trace Original -> Format -> Format and "
          "validated against it by TLC. Inputs: the corpus (tests, docs, examples), generated programs of every KotoCore family in "
          "randomised layouts with comments (a share with non-ASCII identifiers and string contents), the string-format-option grid, "
+         "the block-position shapes of FmtShapes.tla (every block-introducing construct x every expression form as the block's only "
+         "expression x comment decorations), "
          "in the thorough tier the token neighbourhood of the corpus; options from the 72-point grid. The formatted text of "
          "generated programs is also run and compared with the KotoCore prediction (or with a run of the text as given). Decided on "
          "the domain where nothing needs breaking (reference layout with line_length 255 fits, no chain broken, no shape of known "
@@ -298,7 +303,7 @@ def main():
             {"name": "session", "path": "spec/Session.tla", "serves_properties": ["C07"],
              "kind_free_text": "TLA+ state machine of one embedding instance; TLC enumerates operation histories that are replayed on koto::Koto"},
             {"name": "lexgen", "path": "spec/LexGen.tla", "serves_properties": ["C06"],
-             "kind_free_text": "TLA+ generator: the lexer's mode automaton, TLC enumerates its paths as input texts; CoreCalls.tla enumerates core-library call tuples"},
+             "kind_free_text": "TLA+ generator: the lexer's mode automaton, TLC enumerates its paths as input texts; CoreCalls.tla enumerates core-library call tuples; VmOps.tla enumerates VM operations over boundary values and hostile objects"},
             {"name": "shared", "path": "spec/Shared.tla", "serves_properties": ["C19"],
              "kind_free_text": "TLA+ model of lock-step programs of shared-container operations; SharedOps!Explains also validates rounds recorded from real threads"},
             {"name": "strings", "path": "spec/Strings.tla", "serves_properties": ["C15"],
